@@ -86,9 +86,15 @@ class ThermalScatteringLaw(DataInputAbstract):
                 raise TypeError(
                     f"element {law} in thermal_scattering_laws must be a string"
                 )
+        # the comments after the last law stay with the input
+        end_padding = None
+        if self._scattering_laws:
+            end_padding = self._scattering_laws[-1].padding
         self._scattering_laws.clear()
         for law in laws:
             self._scattering_laws.append(self._generate_default_node(str, law))
+        if self._scattering_laws and end_padding is not None:
+            self._scattering_laws[-1].padding = end_padding
 
     def add_scattering_law(self, law):
         """
